@@ -463,9 +463,9 @@ func genCases(r *hlib.Run) []*kase {
 	// The Lean model costs ~20 k instructions per payload byte (2 encodes + 2 decodes): it gets every
 	// payload up to 4 KiB and the larger ones while the budget lasts (fixed shapes come first); the
 	// implementation-side oracles run on every payload.
-	modelBudget := 2_600_000
+	modelBudget := 2_000_000
 	if T {
-		modelBudget = 60_000_000
+		modelBudget = 24_000_000
 	}
 	add := func(name string, data []byte, external, chunked bool) {
 		m := len(data) <= 4096
